@@ -15,6 +15,8 @@ Decided:
               typestate; cryptoutil vector writers require exact lengths; scrypt / PBKDF2 / HKDF guards (C10)
   one-shot    ChaChaPoly1305::encrypt / decrypt assert !finished and leave finished == true on every path
   total       no explicit panic reachable from X25519 (C12 rule)
+  fe-use     32-bit backend: every call site of a field operation anywhere in the crate hands it operands built from at most
+             three TIGHT values without a carry (the contract fe-bounds proves); nobody outside fe32 touches Fe limbs
 Not decided: absence of panics from overflow / bounds asserts in general (tier-2 interval obligations are
 discharged only for the modules listed in the evidence), unsafe-block extents."""
 import re
